@@ -319,7 +319,7 @@ func rdbToValue(v *ref.RValue, streamVer int) *redisd.Value {
 		for _, g := range s.Groups {
 			ng := &redisd.Group{Name: string(g.Name), LastID: rdbSID(g.LastID), EntriesRd: int64(g.EntriesRead)}
 			if streamVer < 2 {
-				ng.EntriesRd = -1
+				ng.EntriesRd = rdbEntriesReadNotCarried
 			}
 			for _, c := range g.Consumers {
 				ng.Consumers = append(ng.Consumers, string(c.Name))
@@ -769,8 +769,17 @@ func rdbCanon(v *redisd.Value) []string {
 	return out
 }
 
+// rdbEntriesReadNotCarried marks, in an expected value, a group of a v1 stream dump: the dump
+// has no entries-read counter at all (the reader estimates one). It is different from -1
+// (SCG_INVALID_ENTRIES_READ), which a v2+ dump carries as a value of its own.
+const rdbEntriesReadNotCarried = -2
+
 // rdbNormalise drops from got what the source dump did not carry: a v1 stream dump has
-// no entries-read counters (the loader of the target estimates them).
+// no entries-read counters (the loader of the target estimates them). A v2+ dump carries the
+// counter, and -1 ("unknown", what XGROUP CREATE without ENTRIESREAD leaves and what Redis keeps
+// for groups of a fragmented stream) is a value like any other: a faithful copy has -1 on the
+// target as well (XGROUP CREATE ... ENTRIESREAD -1, or the option left out - both store -1), so
+// that the target's XINFO/lag answers are the source's; it is compared strictly.
 func rdbNormalise(want, got *redisd.Value, pre7 bool) {
 	if want.T != 'x' || got.T != 'x' || want.Stream == nil || got.Stream == nil {
 		return
@@ -787,7 +796,7 @@ func rdbNormalise(want, got *redisd.Value, pre7 bool) {
 	}
 	unknown := map[string]bool{}
 	for _, g := range want.Stream.Groups {
-		if g.EntriesRd < 0 {
+		if g.EntriesRd == rdbEntriesReadNotCarried {
 			unknown[g.Name] = true
 		}
 	}
@@ -1077,6 +1086,19 @@ func rdbOracle(prefix string, scn rdbScenario, built *rdbBuilt, out *rdbOutcome)
 				r := mc.OK(mc.Hash(append(logStr, "refused")...), true, out.Events)
 				r.Detail = rdbRefusedOlderTarget
 				return r
+			}
+		}
+		// the error is the target's refusal of one native command of the expansion: name the command
+		for i := len(execLog) - 1; i >= 0; i-- {
+			q := execLog[i]
+			msg := strings.TrimSpace(strings.TrimPrefix(q.Reply, "-"))
+			if strings.HasPrefix(q.Reply, "-") && msg != "" && strings.Contains(out.Err.Error(), msg) && len(q.Argv) > 0 {
+				cmd := q.Name()
+				if cmd == "xgroup" && len(q.Argv) > 1 {
+					cmd += "-" + strings.ToLower(string(q.Argv[1]))
+				}
+				return mc.Violation("the target refused a command the tool built from a valid snapshot value, Send returned its error", prefix+":target-refused:"+cmd+":"+shape,
+					detail(map[string]interface{}{"refused_request": rdbReqStrings([]*redisd.Req{q}), "reply": q.Reply}))
 			}
 		}
 		return mc.Violation("Send returned an error on a valid snapshot", prefix+":send-error:"+shape, detail(nil))
